@@ -60,8 +60,11 @@ def _behaviours(ctx, tmp, transport, cfg, num, seed):
 
 def _replay(ctx):
     from harness import c06_driver as D
-    rep = json.load(open(ctx.replay)).get("replay") or {}
+    whole = json.load(open(ctx.replay))
+    rep = whole.get("replay") or {}
     rec = rep.get("record", rep)
+    if rep.get("kind") == "ble-pairing-trace":
+        return _replay_ble_pairing(ctx, whole, rec)
     ctx.rule = "replay of one stored action sequence on the tree under test"
     acts = rec.get("actions") or []
     parsed = [(a, b) for a, b in (_parse_actions([x])[0] if _parse_actions([x]) else (None, None) for x in acts) if a] if acts and isinstance(acts[0], str) \
@@ -90,6 +93,24 @@ def _replay(ctx):
     finally:
         loop.close()
         asyncio.set_event_loop(None)
+
+
+def _replay_ble_pairing(ctx, whole, rec):
+    """Re-execute the stored pairing-level BLE execution (same seed => same schedule) and validate the fresh trace."""
+    import re
+    from harness.props import extble
+    ctx.rule = "replay of one stored BLE pairing-level execution on the tree under test"
+    m = re.match(r"rnd(\d+)$", str(rec.get("id", "")))
+    use = rec
+    if m:
+        use = extble._random_run(extble._rnd_job(int(whole.get("seed", ctx.seed)), int(m.group(1)), whole.get("tier") == "thorough"))
+    ctx.notes["replayed"] = "re-executed" if use is not rec else "recorded trace re-validated"
+    ctx.case(json.dumps(use["events"]))
+    ctx.sample({"replayed_events": use["events"][:30]})
+    for j in extble.validate(ctx, [use], cfg="BleSession_Trace_c06.cfg", label="replay"):
+        if j.get("invariant") or (j.get("event") or {}).get("ev") in ("enc", "dec", "keys"):
+            ctx.violation(f"replayed BLE pairing-level execution: " + (f"invariant {j['invariant']} violated" if j.get("invariant")
+                          else f"AEAD-boundary event #{j['maxl']} {j['event']} is not allowed by the BLE session model"), use)
 
 
 def _apalache(ctx, tmp):
@@ -122,6 +143,35 @@ def _apalache(ctx, tmp):
             raise MachineryError(f"apalache obligation '{name}': expected {'NoError' if want_ok else 'Error'}, got {'NoError' if ok else 'Error'}")
         out.append({"obligation": name, "outcome": "NoError" if ok else "Error (as required)", "wall_s": round(time.time() - t0, 1)})
     ctx.notes["apalache_inductive_invariant"] = out
+
+
+def _ble_pairing_level(ctx):
+    """BLE at pairing level: seeded random executions of the real BlePairing (calls, faults, link loss, cancellation,
+    close) recorded at the Bluetooth / AEAD / API boundaries by the BLE session extension (spec/ble/BleSession.tla) and
+    validated by TLC with this property's invariants only: no nonce twice under one key, fragments accepted once and in
+    order, keys installed once per pair-verify, the keys of a failed or cancelled request never used again.  The
+    session model is taken with its one recorded deviation enabled (EXTBLE: keys installed for a link that is already
+    lost - no nonce is reused there), so that finding is not an alarm of this property.  Executions that the session
+    model cannot follow for reasons outside the AEAD boundary are EXTBLE's business and only counted here."""
+    from harness.props import extble
+    recs = extble.pairing_level_records(ctx, ctx.pick(120, 1500))
+    for r in recs:
+        ctx.case(json.dumps(r["events"]) if any(e["ev"] == "enc" for e in r["events"]) else None)
+    rej = extble.validate(ctx, recs, cfg="BleSession_Trace_c06.cfg", label="BLE pairing level, session model with C06 invariants")
+    other = 0
+    for j in rej:
+        rid = j["record"].get("id", "?")
+        if j.get("invariant"):
+            ctx.violation(f"BLE pairing-level execution {rid} drives the BLE session model into a state violating {j['invariant']}",
+                          {"kind": "ble-pairing-trace", "record": j["record"], "position": j.get("maxl"), "invariant": j["invariant"]})
+        elif (j.get("event") or {}).get("ev") in ("enc", "dec", "keys"):
+            ctx.violation(f"BLE pairing-level execution {rid}: AEAD-boundary event #{j['maxl']} {j['event']} is not allowed by the BLE "
+                          f"session model (counter / key use the model cannot explain)",
+                          {"kind": "ble-pairing-trace", "record": j["record"], "position": j.get("maxl"), "first_unexplained": j["event"]})
+        else:
+            other += 1
+    ctx.notes["ble_pairing_level_executions"] = len(recs)
+    ctx.notes["ble_pairing_level_rejected_outside_aead_boundary"] = other
 
 
 def run(ctx):
@@ -198,6 +248,7 @@ def run(ctx):
                 ctx.violation(f"{t} execution {j['record']['id'] if j.get('record') else '?'} is not a behaviour of SessionCounters: "
                               + (f"invariant {j['invariant']} violated" if j.get("invariant") else f"event #{j['maxl']} {j['event']} cannot be explained"),
                               {"record": j.get("record"), "position": j.get("maxl"), "last_matched_state": j.get("last_state")})
+        _ble_pairing_level(ctx)
         # CoAP: first without the deviations; what is rejected must be explained by a listed deviation
         rej = tracecheck.validate(ctx, "session/SessionCounters_Trace", "SessionCounters_Trace_COAP_forward.cfg", recs["COAP"],
                                   label=f"trace validation COAP without deviations ({len(recs['COAP'])} executions)")
